@@ -2,7 +2,6 @@ import FpgoVerif.Proofs.C14Inv
 import FpgoVerif.Proofs.C14Progress
 import FpgoVerif.Proofs.C14Wait
 import FpgoVerif.Proofs.C14Run
-import FpgoVerif.Gen.Skeletons
 import FpgoVerif.Gen.C15Bodies
 /-! Property theorems for C14 — coroutines pair every YieldFrom with the matching YieldRef, in order, per caller.
     All theorems hold for any number of callers, any scripts, any opCh capacity, any generator `gen`, and every
@@ -151,17 +150,17 @@ example : ∃ s, DnReach 7 s ∧ s.m = .m2 ∧ s.e = .e1 ∧ s.wg = 1 :=
 
 /-! ### protocol tie: the exact current bodies of the coroutine functions (regenerated on every run) -/
 
-theorem C14_body_YieldRef : Gen.c15BodyOf "CorDef.YieldRef" = some "{ var result T if self.IsDone() { return result } var op *CorOp[T] var more bool op, more = <-self.opCh if more && op != nil && op.cor != nil { cor := op.cor cor.doCloseSafe(func() { cor.resultCh <- out }) } result = op.val return result }" := by decide +kernel
-theorem C14_body_YieldFrom : Gen.c15BodyOf "CorDef.YieldFrom" = some "{ var result T if self.IsDone() { return result } if !target.receive(self, in) { return result } result, _ = <-self.resultCh return result }" := by decide +kernel
-theorem C14_body_receive : Gen.c15BodyOf "CorDef.receive" = some "{ delivered := false self.doCloseSafe(func() { if self.opCh != nil { select { case self.opCh <- &CorOp[T]{cor: cor, val: in}: delivered = true case <-self.doneCh: } } }) return delivered }" := by decide +kernel
-theorem C14_body_StartWithVal : Gen.c15BodyOf "CorDef.StartWithVal" = some "{ if self.IsDone() || self.isStarted.Get() { return } self.receive(nil, in) self.Start() }" := by decide +kernel
-theorem C14_body_Start : Gen.c15BodyOf "CorDef.Start" = some "{ if self.IsDone() || self.isStarted.Get() { return } self.isStarted.Set(true) go func() { self.effect() self.close() }() }" := by decide +kernel
-theorem C14_body_DoNotation : Gen.c15BodyOf "CorDef.DoNotation" = some "{ var result T var wg sync.WaitGroup wg.Add(1) var cor *CorDef[T] cor = CorNewGenerics[T](func() { result = effect(cor) wg.Done() }) cor.Start() wg.Wait() return result }" := by decide +kernel
-theorem C14_body_YieldFromIO : Gen.c15BodyOf "CorDef.YieldFromIO" = some "{ var result T var wg sync.WaitGroup wg.Add(1) target.SubscribeOn(nil).Subscribe(Subscription[T]{ OnNext: func(in T) { result = in wg.Done() }, }) wg.Wait() return result }" := by decide +kernel
-theorem C14_body_New : Gen.c15BodyOf "CorNewGenerics" = some "{ cor := &CorDef[T]{ effect: effect, opCh: make(chan *CorOp[T], 5), resultCh: make(chan T, 5), doneCh: make(chan struct{}), isStarted: AtomBool{flag: 0}, } return cor }" := by decide +kernel
-theorem C14_body_IsDone : Gen.c15BodyOf "CorDef.IsDone" = some "{ return self.isClosed.Get() }" := by decide +kernel
-theorem C14_body_IsStarted : Gen.c15BodyOf "CorDef.IsStarted" = some "{ return self.isStarted.Get() }" := by decide +kernel
-theorem C14_body_doCloseSafe : Gen.c15BodyOf "CorDef.doCloseSafe" = some "{ self.closedM.Lock() defer self.closedM.Unlock() if self.IsDone() { return } fn() }" := by decide +kernel
-theorem C14_body_close : Gen.c15BodyOf "CorDef.close" = some "{ self.isClosed.Set(true) if self.doneCh != nil { close(self.doneCh) } self.closedM.Lock() if self.resultCh != nil { close(self.resultCh) } if self.opCh != nil { close(self.opCh) } self.closedM.Unlock() if self.opCh != nil { for op := range self.opCh { if op != nil && op.cor != nil { cor := op.cor cor.doCloseSafe(func() { var zero T cor.resultCh <- zero }) } } } }" := by decide +kernel
+theorem C14_body_YieldRef : Gen.c15BodyToksOf "CorDef.YieldRef" = some ["{", "var", "result", "T", "if", "self.IsDone()", "{", "return", "result", "}", "var", "op", "*CorOp[T]", "var", "more", "bool", "op,", "more", "=", "<-self.opCh", "if", "more", "&&", "op", "!=", "nil", "&&", "op.cor", "!=", "nil", "{", "cor", ":=", "op.cor", "cor.doCloseSafe(func()", "{", "cor.resultCh", "<-", "out", "})", "}", "result", "=", "op.val", "return", "result", "}"] := by decide +kernel
+theorem C14_body_YieldFrom : Gen.c15BodyToksOf "CorDef.YieldFrom" = some ["{", "var", "result", "T", "if", "self.IsDone()", "{", "return", "result", "}", "if", "!target.receive(self,", "in)", "{", "return", "result", "}", "result,", "_", "=", "<-self.resultCh", "return", "result", "}"] := by decide +kernel
+theorem C14_body_receive : Gen.c15BodyToksOf "CorDef.receive" = some ["{", "delivered", ":=", "false", "self.doCloseSafe(func()", "{", "if", "self.opCh", "!=", "nil", "{", "select", "{", "case", "self.opCh", "<-", "&CorOp[T]{cor:", "cor,", "val:", "in}:", "delivered", "=", "true", "case", "<-self.doneCh:", "}", "}", "})", "return", "delivered", "}"] := by decide +kernel
+theorem C14_body_StartWithVal : Gen.c15BodyToksOf "CorDef.StartWithVal" = some ["{", "if", "self.IsDone()", "||", "self.isStarted.Get()", "{", "return", "}", "self.receive(nil,", "in)", "self.Start()", "}"] := by decide +kernel
+theorem C14_body_Start : Gen.c15BodyToksOf "CorDef.Start" = some ["{", "if", "self.IsDone()", "||", "self.isStarted.Get()", "{", "return", "}", "self.isStarted.Set(true)", "go", "func()", "{", "self.effect()", "self.close()", "}()", "}"] := by decide +kernel
+theorem C14_body_DoNotation : Gen.c15BodyToksOf "CorDef.DoNotation" = some ["{", "var", "result", "T", "var", "wg", "sync.WaitGroup", "wg.Add(1)", "var", "cor", "*CorDef[T]", "cor", "=", "CorNewGenerics[T](func()", "{", "result", "=", "effect(cor)", "wg.Done()", "})", "cor.Start()", "wg.Wait()", "return", "result", "}"] := by decide +kernel
+theorem C14_body_YieldFromIO : Gen.c15BodyToksOf "CorDef.YieldFromIO" = some ["{", "var", "result", "T", "var", "wg", "sync.WaitGroup", "wg.Add(1)", "target.SubscribeOn(nil).Subscribe(Subscription[T]{", "OnNext:", "func(in", "T)", "{", "result", "=", "in", "wg.Done()", "},", "})", "wg.Wait()", "return", "result", "}"] := by decide +kernel
+theorem C14_body_New : Gen.c15BodyToksOf "CorNewGenerics" = some ["{", "cor", ":=", "&CorDef[T]{", "effect:", "effect,", "opCh:", "make(chan", "*CorOp[T],", "5),", "resultCh:", "make(chan", "T,", "5),", "doneCh:", "make(chan", "struct{}),", "isStarted:", "AtomBool{flag:", "0},", "}", "return", "cor", "}"] := by decide +kernel
+theorem C14_body_IsDone : Gen.c15BodyToksOf "CorDef.IsDone" = some ["{", "return", "self.isClosed.Get()", "}"] := by decide +kernel
+theorem C14_body_IsStarted : Gen.c15BodyToksOf "CorDef.IsStarted" = some ["{", "return", "self.isStarted.Get()", "}"] := by decide +kernel
+theorem C14_body_doCloseSafe : Gen.c15BodyToksOf "CorDef.doCloseSafe" = some ["{", "self.closedM.Lock()", "defer", "self.closedM.Unlock()", "if", "self.IsDone()", "{", "return", "}", "fn()", "}"] := by decide +kernel
+theorem C14_body_close : Gen.c15BodyToksOf "CorDef.close" = some ["{", "self.isClosed.Set(true)", "if", "self.doneCh", "!=", "nil", "{", "close(self.doneCh)", "}", "self.closedM.Lock()", "if", "self.resultCh", "!=", "nil", "{", "close(self.resultCh)", "}", "if", "self.opCh", "!=", "nil", "{", "close(self.opCh)", "}", "self.closedM.Unlock()", "if", "self.opCh", "!=", "nil", "{", "for", "op", ":=", "range", "self.opCh", "{", "if", "op", "!=", "nil", "&&", "op.cor", "!=", "nil", "{", "cor", ":=", "op.cor", "cor.doCloseSafe(func()", "{", "var", "zero", "T", "cor.resultCh", "<-", "zero", "})", "}", "}", "}", "}"] := by decide +kernel
 
 end FpgoVerif.C14
